@@ -89,7 +89,7 @@ class Jobs:
         c = dict(constants)
         c["EMIT"] = bool(emit)
         cfg = tlc.cfg_text(constants=c, invariants=invariants, properties=properties, view="GenView" if emit else None, **kw.pop("cfg", {}))
-        self.f[name] = self.ex.submit(tlc.run, module, cfg, workers=1 if emit else W, coverage=coverage, tag="x04-" + name.replace(" ", "_")[:20],
+        self.f[name] = self.ex.submit(tlc.run, module, cfg, workers=1 if emit else W, coverage=coverage, tag="x04-" + "".join(ch if ch.isalnum() else "_" for ch in name)[:28],
                                       timeout=1500, **kw)
 
     def get(self, name):
@@ -185,9 +185,9 @@ def net_configs(quick):
     if quick:
         return [("q+clone", n1, {"a": "q", "b": "q"}, True), ("enc+clone", n1, {"a": "enc", "b": "enc"}, True),
                 ("pwe+q", C(NT=3, MaxNormNum=5, MaxNormDen=4, Bound=1), {"a": "pwe", "b": "q"}, False)]
-    n3 = C(NT=2, Bound=3, Wide=True)
-    return [("q+clone", n3, {"a": "q", "b": "q"}, True), ("q+clone/54", n2, {"a": "q", "b": "q"}, True),
-            ("enc+clone", C(NT=2, Bound=2, Wide=True), {"a": "enc", "b": "enc"}, True), ("enc+q/54", n2, {"a": "enc", "b": "q"}, False),
+    n3, n4 = C(NT=2, Bound=3), C(NT=2, Bound=2, Wide=True)
+    return [("q+clone", n3, {"a": "q", "b": "q"}, True), ("q+clone/wide", n4, {"a": "q", "b": "q"}, True), ("q+clone/54", n2, {"a": "q", "b": "q"}, True),
+            ("enc+clone", n4, {"a": "enc", "b": "enc"}, True), ("enc+q/54", n2, {"a": "enc", "b": "q"}, False),
             ("pwe+clone", n1, {"a": "pwe", "b": "pwe"}, True), ("pwe+q/54", n2, {"a": "pwe", "b": "q"}, False)]
 
 
